@@ -481,6 +481,7 @@ type poolCfg struct {
 	trunk                               bool // the first pre-attached interface is the trunk
 	special                             string // "", "trunk" or "erdma": type of the first pre-attached interface
 	restarted                           bool   // this system is the daemon started again on the same cloud (no reset line, balancer on)
+	preV4                               int    // extra idle IPv4 addresses on every pre-attached interface
 	noPre6                              bool   // pre-attached interfaces carry no IPv6 address (IPv6 enabled on a node with IPv4-only interfaces)
 	policy                              string
 }
@@ -515,6 +516,9 @@ func newPoolSys(t *testing.T, w *vt.Writer, cfg poolCfg, scen int, podRes []daem
 			a := cloud.freeAddr(4)
 			fe.v4[a] = true
 			fe.primary = a
+			for j := 0; j < cfg.preV4; j++ {
+				fe.v4[cloud.freeAddr(4)] = true
+			}
 			if cfg.v6 && !cfg.noPre6 {
 				fe.v6[cloud.freeAddr(6)] = true
 			}
@@ -1158,6 +1162,7 @@ func cfgOf(m vt.M) poolCfg {
 		c.special = "trunk"
 	}
 	c.noPre6, _ = m["noPre6"].(bool)
+	c.preV4 = vt.Int(m["preV4"])
 	return c
 }
 
@@ -1230,6 +1235,29 @@ func TestVerifPool(t *testing.T) {
 				vt.M{"a": "slowwaiter", "us": 40000}, vt.M{"a": "arm_sync", "us": 4000}, vt.M{"a": "alloc", "p": 1}, vt.M{"a": "wait", "ms": 700},
 				vt.M{"a": "alloc", "p": 2}, vt.M{"a": "wait", "ms": 500}, vt.M{"a": "arm_sync", "us": 4000}, vt.M{"a": "alloc", "p": 3}, vt.M{"a": "alloc", "p": 4},
 				vt.M{"a": "wait", "ms": 700}, vt.M{"a": "slowwaiter", "us": 0}, vt.M{"a": "settle"})
+			scens = append(scens, sc)
+			continue
+		}
+		if k%8 == 4 {
+			sc = sc[:1]
+			c := vt.Map(sc[0]["conf"])
+			c["special"], c["trunk"], c["minIdle"], c["policy"] = "", false, 0, "most_ips"
+			if (k/8)%2 == 0 {
+				// IPv6 switched on for a node whose interface carries IPv4 addresses only: more pods arrive at once than the
+				// interface has IPv6 slots; the pending IPv6 requests must count against the per-interface limit
+				c["v6"], c["cap"], c["slots"], c["batch"], c["pre"], c["noPre6"], c["preV4"], c["maxIdle"] = true, 3, 2, 3, 1, true, 2, 3
+				sc = append(sc, vt.M{"a": "uninhibit"}, vt.M{"a": "settle"}, vt.M{"a": "alloc", "p": 1}, vt.M{"a": "alloc", "p": 2}, vt.M{"a": "alloc", "p": 3},
+					vt.M{"a": "alloc", "p": 4}, vt.M{"a": "wait", "ms": 900}, vt.M{"a": "settle"}, vt.M{"a": "release", "p": 1}, vt.M{"a": "release", "p": 2},
+					vt.M{"a": "settle"}, vt.M{"a": "alloc", "p": 1}, vt.M{"a": "alloc", "p": 2}, vt.M{"a": "settle"})
+			} else {
+				// the balancer gives an idle interface up, the cloud refuses the delete once: the slot is not free before the
+				// interface is really gone, new demand must not create an interface beyond the node's quota meanwhile
+				c["v6"], c["cap"], c["slots"], c["batch"], c["pre"], c["maxIdle"] = (k/16)%2 == 1, 2, 2, 1, 0, 0
+				sc = append(sc, vt.M{"a": "uninhibit"}, vt.M{"a": "settle"}, vt.M{"a": "alloc", "p": 1}, vt.M{"a": "settle"}, vt.M{"a": "alloc", "p": 2}, vt.M{"a": "settle"},
+					vt.M{"a": "alloc", "p": 3}, vt.M{"a": "wait", "ms": 700}, vt.M{"a": "settle"}, vt.M{"a": "release", "p": 3}, vt.M{"a": "settle"},
+					vt.M{"a": "plan", "kind": "delete", "outcomes": []any{"fb"}}, vt.M{"a": "syncpool"}, vt.M{"a": "wait", "ms": 500},
+					vt.M{"a": "alloc", "p": 3}, vt.M{"a": "alloc", "p": 4}, vt.M{"a": "wait", "ms": 900}, vt.M{"a": "uninhibit"}, vt.M{"a": "settle"})
+			}
 			scens = append(scens, sc)
 			continue
 		}
